@@ -33,15 +33,18 @@ class Iso:
         self.ref2key = {}     # refmask -> (kingdon key, orientation)
         for k, name in alg.bin2canon.items():
             seq = [int(c, 16) - start for c in name[1:]]
-            assert all(0 <= b < d for b in seq) and len(set(seq)) == len(seq), name
+            if not (all(0 <= b < d for b in seq) and len(set(seq)) == len(seq)):
+                raise ValueError(f'blade name {name} does not spell distinct generators of a {d}-dimensional algebra with start_index={start}')
             mask = 0
             for b in seq:
                 mask |= 1 << b
             o = perm_parity(seq)
             self.key2ref[k] = (mask, o)
-            assert mask not in self.ref2key, 'two keys name the same blade'
+            if mask in self.ref2key:
+                raise ValueError(f'two keys name the same blade ({name})')
             self.ref2key[mask] = (k, o)
-        assert len(self.ref2key) == 2 ** d
+        if len(self.ref2key) != 2 ** d:
+            raise ValueError('bin2canon does not name 2^d blades')
         self.pss_sign = self.ref2key[self.ref.full][1]
         self.canon_keys = tuple(alg.canon2bin.values())
 
